@@ -76,7 +76,7 @@ def build(rng):
             if t < now or (t == now and script and script[-1][1] == AFTER and rank == BEFORE):
                 t, rank = now + 0.125, BEFORE
         # finite subscriptions run out; keep clear of acting exactly at an expiry instant
-        if any(abs(exp - t) <= 4 * EPS for d in subbed.values() for exp, _v in d.values()):
+        while any(abs(exp - t) <= 4 * EPS for d in subbed.values() for exp, _v in d.values()):
             t += 2.0 ** -8
         for d in subbed.values():
             for ep in [ep for ep, (exp, _v) in d.items() if exp <= t]:
